@@ -366,6 +366,13 @@ pub fn compile(path: &Path, src: &str) -> Result<Compilation, CompilationError> 
     if diagnostics.has_errors() {
         return Err(CompilationError::Compile { diagnostics });
     }
+    // A program needs an entry point. `link` refuses a Main package without `main`; without the
+    // same test here the back end emits `func main() { main0() }` and no `main0`.
+    if !core.toplevels.iter().any(|f| f.name == "main") {
+        return Err(compile_error(
+            "Main package missing main function".to_string(),
+        ));
+    }
     let (mono, monoenv) = mono::mono(genv.clone(), core.clone());
     let (lifted_core, liftenv) = lift::lambda_lift(monoenv.clone(), &gensym, mono.clone());
     let (anf, anfenv) = anf::anf_file(liftenv.clone(), &gensym, lifted_core.clone());
